@@ -74,6 +74,16 @@ class Gen:
             self.nact += 1
         return out
 
+    def actions_n(self, n):
+        out = []
+        for _ in range(n):
+            out.append(self.nact)
+            self.nact += 1
+        return out
+
+    def iactions(self):
+        return self.actions() or self.actions_n(1)
+
     # ------------------------------------------------------------------
     def machine(self, level, depth, name, events):
         p = self.p
@@ -127,7 +137,10 @@ class Gen:
                     tgt = None
                 else:
                     tgt = r.choice(reg)
-                rows.append(dict(src=s, ev=e, tgt=tgt, guard=self.guard(), actions=self.actions()))
+                acts = self.actions()
+                if tgt is None and not acts:
+                    acts = self.actions_n(1)     # a taken internal row must be visible (C06 model-free oracle)
+                rows.append(dict(src=s, ev=e, tgt=tgt, guard=self.guard(), actions=acts))
         # make sure every non-initial state is reachable-ish: add an unguarded row into it from the initial state
         for ri_, reg in enumerate(m['regions']):
             for s in reg[1:]:
@@ -138,10 +151,10 @@ class Gen:
         # state-internal tables
         for s, st in m['states'].items():
             if st['kind'] == 'simple' and r.random() < p['state_internal']:
-                st['internal'] = [dict(ev=r.choice(events), guard=self.guard(), actions=self.actions())
+                st['internal'] = [dict(ev=r.choice(events), guard=self.guard(), actions=self.iactions())
                                   for _ in range(r.choice([1, 1, 2]))]
         if r.random() < p['sm_internal']:
-            m['internal'] = [dict(ev=r.choice(events), guard=self.guard(), actions=self.actions())
+            m['internal'] = [dict(ev=r.choice(events), guard=self.guard(), actions=self.iactions())
                              for _ in range(r.choice([1, 1, 2]))]
         if p['completion'] > 0:
             self.add_completion(m)
